@@ -69,6 +69,17 @@ func buildOverlay(cfg *CheckCfg, scratch, patch string) (string, error) {
 		return "", err
 	}
 
+	// inject/<pkg path>/*.go: add-only virtual source files (exported test hooks) inside restic packages
+	injRoot := filepath.Join(verifDir, "inject")
+	_ = filepath.Walk(injRoot, func(p string, info os.FileInfo, err error) error {
+		if err != nil || info.IsDir() || !strings.HasSuffix(p, ".go") {
+			return nil
+		}
+		rel, _ := filepath.Rel(injRoot, p)
+		replace[filepath.Join(repoDir, rel)] = p
+		return nil
+	})
+
 	// patch → copies
 	patched := map[string]string{} // repo-relative → patched copy
 	if patch != "" {
